@@ -72,6 +72,39 @@ AREAS4 = {
                   "market updates (index markets after their components), same holdings arithmetic per fill, in fill order.",
 }
 
+AREAS5 = {
+    "s-ordercmp": "pams/order.py: Order.__init__ validation, the comparison operators (__eq__, __ne__, __lt__, __le__, __gt__, __ge__, "
+                  "_gt_lt, _compare_placed_at) and check_system_acceptable: express the priority as one documented helper (price "
+                  "level signed by side, market orders first, then placed_at, then order_id) and derive all six operators from it "
+                  "ONLY IF every operator returns exactly what it returns now for every pair of orders (same side or not, market "
+                  "or limit, equal prices, equal times, unset placed_at / order_id) and raises what it raises now.",
+    "s-bookheap": "pams/order_book.py: add / _remove / cancel / change_order_volume / get_best_order / get_best_price / "
+                  "get_price_volume / __len__ / __contains__-like tests: small helpers, clearer names; priority_queue must stay a "
+                  "valid heap after every public call with the same element order as now, same expiry buckets, same logs.",
+    "s-addorder": "pams/market.py Market._add_order / _cancel_order / _execution / _execute_orders / _update_market_price: extract "
+                  "helpers (validation, tick normalisation, log creation) and add OPTIONAL keyword-only parameters with defaults "
+                  "that keep today's behaviour (e.g. a `validate: bool = True` switch used by nobody yet); every existing call "
+                  "site keeps working unchanged, hooks and rounding happen in the same order as now.",
+    "s-eventbase": "pams/events/base.py (EventHook, EventABC) and the hook_registration methods of the four bundled events: "
+                   "validation of hook_type / time / specific_class / specific_instance via a table, clearer error messages with "
+                   "the same exception types, hooks created in the same order with the same attribute values (time lists kept "
+                   "as given, None kept as None, [] kept as []).",
+    "s-simregistry": "pams/simulator.py: _add_agent / _add_market / _add_session / _add_event / _add_agents / _add_markets and the "
+                     "id / name / group dictionaries: one private helper for 'register under id, name and group with duplicate "
+                     "checks'; same exceptions for duplicates, same list orders, same dictionaries afterwards.",
+    "s-fundchunks": "pams/fundamentals.py: get_fundamental_price / get_fundamental_prices / _generate_next / _generate_log_return: "
+                    "helpers for 'make sure generated up to t', clearer variable names; the SAME calls to the generator with the "
+                    "SAME sizes in the SAME order (chunk size 100, one block per chunk), same roll-back on parameter changes.",
+    "s-logclasses": "pams/logs/base.py: the Log subclasses (OrderLog, CancelLog, ExecutionLog, ExpirationLog, the begin/end logs): "
+                    "remove duplication in constructors with a small mixin or helper, keep every attribute name and value, keep "
+                    "read_and_write / read_and_write_with_direct_process behaviour and the order in which records reach a logger.",
+    "s-ticks": "pams/market.py: convert_to_tick_level / convert_to_tick_level_rounded_lower / _rounded_upper / convert_to_price and "
+               "the rounding block of _add_order: shared private helper, clearer on-grid test; results must be bit-identical for "
+               "every tick and price (including ticks like 0.1, 0.01, 1e-5, 3.0 and prices that are an ulp off the grid); "
+               "user subclasses overriding the public converters must still be called exactly where they are called now, with "
+               "the same arguments.",
+}
+
 TEMPLATE = """You are working in a git worktree of the open-source Python project masanorihirano/pams (PAMS: a pure-Python agent-based artificial market simulator) at {wt}. Work ONLY inside {wt}: do not read, list or modify /repo, /verif or any directory outside {wt} (the Python standard library / site-packages are fine).
 
 Interpreter: /venv/bin/python. Test suite:
@@ -93,7 +126,7 @@ Deliverables inside {wt}: the change left applied (uncommitted); {wt}/patch.diff
 def main():
     rd = sys.argv[1]
     os.makedirs(rd, exist_ok=True)
-    areas = AREAS4 if (len(sys.argv) > 2 and sys.argv[2] == "4") else AREAS
+    areas = {"4": AREAS4, "5": AREAS5}.get(sys.argv[2] if len(sys.argv) > 2 else "", AREAS)
     for name, area in areas.items():
         wt = os.path.join(rd, name)
         open(os.path.join(rd, "prompt_%s.txt" % name), "w").write(TEMPLATE.format(wt=wt, area=area))
